@@ -399,6 +399,17 @@ func (s *Script) evalWithRoot(stack, data, root any) (any, Expr) {
 	return stack, locs
 }
 
+// isComparable returns true if v can be an operand of == without a panic.
+func isComparable(v any) bool {
+	switch v.(type) {
+	case nil, bool, int64, float64, string, nothing:
+		return true
+	case []any, map[string]any, gen.Array, gen.Object:
+		return false
+	}
+	return reflect.TypeOf(v).Comparable()
+}
+
 func normalize(v any) any {
 	switch tv := v.(type) {
 	case int:
@@ -467,7 +478,7 @@ func evalStack(sstack []any) []any {
 		case group.code:
 			sstack[i] = left
 		case eq.code:
-			if left == right {
+			if isComparable(left) && left == right {
 				sstack[i] = true
 			} else {
 				sstack[i] = false
@@ -482,18 +493,19 @@ func evalStack(sstack []any) []any {
 				}
 			}
 		case neq.code:
-			if left == right {
+			if isComparable(left) && left == right {
 				sstack[i] = false
 			} else {
 				sstack[i] = true
 				switch tl := left.(type) {
 				case int64:
 					if tr, ok := right.(float64); ok {
-						sstack[i] = ok && float64(tl) != tr
+						sstack[i] = float64(tl) != tr
 					}
 				case float64:
-					tr, ok := right.(int64)
-					sstack[i] = ok && tl != float64(tr)
+					if tr, ok := right.(int64); ok {
+						sstack[i] = tl != float64(tr)
+					}
 				}
 			}
 		case lt.code:
@@ -682,7 +694,7 @@ func evalStack(sstack []any) []any {
 			sstack[i] = false
 			if list, ok := right.([]any); ok {
 				for _, ev := range list {
-					if left == ev {
+					if isComparable(left) && left == ev {
 						sstack[i] = true
 						break
 					}
